@@ -36,7 +36,8 @@
  * and the logging thread runs freely, except that `Hold` keeps it from starting its next sem_wait
  * (where it holds no lock) until `Release`, and `Slow <us>` delays it there, so that a backlog can
  * build up to the real 512000-byte limit.  Lines: the calls above without the thread id, and
- * Burst <n> <len> <gap_us> | Hold | Release | Slow <us> | Sleep <us>.
+ * Burst <n> <len> <gap_us> | Hold | Release | Slow <us> | Sleep <us> | Second (open a second threaded target,
+ * whose writes are recorded as Write2).
  * Call-level events, serialised by a mutex: Inv [op,arg,size] before a call, Ret [op] [rc] after it,
  * Write [m] from the target's logger, Lost [n] for an "n messages lost" report; Hung if the history does not
  * end within the watchdog time (e.g. a qb_log_fini that never returns).
@@ -61,12 +62,12 @@
 #define VP_TERMINATED 499
 #define WATCHDOG_MS 4000
 
-enum { OP_NONE, OP_INIT, OP_SETTHREADED, OP_ENABLE, OP_CONF, OP_CLOSE, OP_START, OP_LOG, OP_FINI, OP_QUIT = 99 };
-static const char *opnames[] = { "", "Init", "SetThreaded", "Enable", "Conf", "Close", "Start", "Log", "Fini" };
+enum { OP_NONE, OP_INIT, OP_SETTHREADED, OP_ENABLE, OP_CONF, OP_CLOSE, OP_START, OP_LOG, OP_FINI, OP_SECOND, OP_QUIT = 99 };
+static const char *opnames[] = { "", "Init", "SetThreaded", "Enable", "Conf", "Close", "Start", "Log", "Fini", "Second" };
 
 static int opcode(const char *s)
 {
-	for (int i = 1; i <= OP_FINI; i++) if (!strcmp(s, opnames[i])) return i;
+	for (int i = 1; i <= OP_SECOND; i++) if (!strcmp(s, opnames[i])) return i;
 	return -1;
 }
 
@@ -100,6 +101,17 @@ static void t_logger(int32_t t, struct qb_log_callsite *cs, struct timespec *ts,
 	}
 	hook(VP_INLOGGER, NULL, seq, 0);	/* the thread is now inside the target's logger */
 	step.wrote = seq;
+}
+
+/* free mode, `Second`: a second custom target selected by the same call sites, threaded and enabled from the
+ * moment it is opened and never reconfigured: every message must reach it exactly once as well ("Write2") */
+static int32_t target2 = -1;
+static void t_logger2(int32_t t, struct qb_log_callsite *cs, struct timespec *ts, const char *msg)
+{
+	long seq = (msg && msg[0] == 'm') ? atol(msg + 1) : -1;
+	emit_lock();
+	vt_ev("Write2"); vt_i(seq); vt_res(); vt_end();
+	emit_unlock();
 }
 
 static void t_close(int32_t t)
@@ -146,6 +158,13 @@ static long do_call(int op, long arg)
 	case OP_FINI:
 		qb_log_fini();
 		return 0;
+	case OP_SECOND:
+		target2 = qb_log_custom_open(t_logger2, NULL, NULL, NULL);
+		if (target2 < 0) return target2;
+		if (qb_log_filter_ctl(target2, QB_LOG_FILTER_ADD, QB_LOG_FILTER_FILE, "h_logthread_src", LOG_TRACE) != 0) return -1;
+		qb_log_format_set(target2, "%b");
+		if (qb_log_ctl(target2, QB_LOG_CONF_THREADED, QB_TRUE) != 0) return -2;
+		return qb_log_ctl(target2, QB_LOG_CONF_ENABLED, QB_TRUE);
 	}
 	return -99;
 }
